@@ -17,7 +17,7 @@ CFG = dict(
     streams=[dict(name="c04", n=dict(quick=150, thorough=2500))],
     trusted=T_PLY,
     residue=["header describes body: PROVED for the binary encodings (ply_body_length_binary, ply_header_describes_body_binary: what writeBody emits = what writeHeader declares, for every WF mesh and configuration); for ASCII (number of non-empty body lines = nv + nf, tokens per line) and for the header text round trip parseHeader(render h) = h it is NOT proved — carried by the oracle c04.holds.header_describes (HeaderDescribes now also checks ASCII line and token counts) and by c04.header",
-             "no composed theorem about readMesh ∘ writeMesh (not even for the binary encodings): the proved pieces are the field/record wire round trip at header-computed offsets, the scalar reader's location, and the body size; the vector claim scan has its offset theorem (ply_vector_reader_offsets) but its IgnorableW fallback, buildAll, readBody, parseHeader, unweld are not the subject of any theorem",
+             "COMPOSED: ply_roundtrip_binary_partial proves readBody(writeHeader, writeBody) satisfies RoundTrips for LE/BE, every configuration, every WF point cloud / triangle mesh without per-corner UVs, at the PARSED-header interface and under explicit claim-stage witnesses ClaimOK (or the decidable certificate claimCheck); NOT proved: the header text round trip parseHeader∘render, ClaimOK from header-level guards (characterisation of buildAll on arbitrary headers), the unweld/TexCoord assembly for triangle meshes with per-corner UVs (stages 1+2 incl. the UV list ARE proved: ply_readback_arrays_binary), ASCII; the vector claim scan has its offset theorem (ply_vector_reader_offsets) but its IgnorableW fallback, buildAll, readBody, parseHeader, unweld are not the subject of any theorem",
              "all theorems hold for an ARBITRARY `Coding α` (no laws: even f32 := const 0) and are about quantBin = decode∘encode of that coding; precision content only via CodingLaws (ply_quant_is_stored_precision)",
              "ply_roundtrip_full / ply_roundtrip_partial_stmt (whole file: writeMesh then readMesh satisfies RoundTrips) is a def … : Prop, NOT a theorem; it is evaluated on the implementation's write→read output by the c04.holds.roundtrip oracle on every generated mesh × configuration × encoding",
              "ply_encodings_agree_full is a def … : Prop, NOT a theorem (false for 8-bit scalar properties: ply_encodings_disagree_uchar_scalar, known finding); evaluated by c04.holds.encodings_agree",
